@@ -53,7 +53,14 @@ reaches its successors, and the path returned is a walk from a source but not th
 						}
 						// a comparison reading D[k]
 						var dmap, knode types.Object
-						ast.Inspect(is.Cond, func(q ast.Node) bool {
+						var condAndInit ast.Node = is.Cond
+						if is.Init != nil {
+							condAndInit = is // the map may be read by the init statement: d, seen := D[k]
+						}
+						ast.Inspect(condAndInit, func(q ast.Node) bool {
+							if q == ast.Node(is.Body) || (is.Else != nil && q == is.Else) {
+								return false
+							}
 							if ix, ok := q.(*ast.IndexExpr); ok {
 								if _, isMap := info.TypeOf(ix.X).Underlying().(*types.Map); isMap && rootObj(info, ix.X) != mark {
 									dmap, knode = rootObj(info, ix.X), rootObj(info, ix.Index)
@@ -205,6 +212,89 @@ from Heads() only, a graph that is one cycle — a tandem repeat longer than the
 				s.Pass(nil, key, starter.Pos(), "the searches start from every node of the table")
 			} else {
 				s.Fail(nil, key, starter.Pos(), "the depth-first searches start from "+types.ExprString(starter.X)+", not from every node: a component that is one ring has no source — the graph of a read whose first and last k-1 symbols are the same is declared acyclic")
+			}
+		},
+	})
+}
+
+
+func init() {
+	register(&Rule{
+		ID: "HW", Props: []string{"C19"}, Min: 2,
+		Doc: `"no path is returned exactly when the graph has a cycle": an acyclic graph has a heaviest path whatever its weights. In (*DeBruijnGraph).HaviestPath (1) the running maximum starts below every
+weight (a negative constant): started at 0, a graph whose k-mers all weigh 0 — records carrying count 0 — never replaces the placeholder node 0, the path is rebuilt from it and the function
+panics "Cycle detected" on an acyclic graph; (2) the relaxation tells a node that was never reached from a node reached with weight 0: the map of the distances is read with the comma-ok form
+(or every node is given a distance beforehand); (3) a graph without any node returns before the search.`,
+		Run: func(c *Ctx, s *Sink) {
+			fd, p := c.FindFunc("pkg/obikmer", "(*DeBruijnGraph).HaviestPath")
+			if fd == nil {
+				s.Undecided(nil, "pkg/obikmer.(*DeBruijnGraph).HaviestPath", 0, "function not found")
+				return
+			}
+			info := p.TypesInfo
+			// the running maximum: an int variable compared with > in a condition whose body assigns it
+			var maxVar types.Object
+			ast.Inspect(fd.Body, func(n ast.Node) bool {
+				is, ok := n.(*ast.IfStmt)
+				if !ok {
+					return true
+				}
+				b, ok := ast.Unparen(is.Cond).(*ast.BinaryExpr)
+				if !ok || b.Op != token.GTR {
+					return true
+				}
+				o := rootObj(info, b.Y)
+				if o == nil {
+					return true
+				}
+				for _, st := range is.Body.List {
+					if as, ok := st.(*ast.AssignStmt); ok && len(as.Lhs) == 1 && rootObj(info, as.Lhs[0]) == o && maxVar == nil {
+						maxVar = o
+					}
+				}
+				return true
+			})
+			key1 := "pkg/obikmer.(*DeBruijnGraph).HaviestPath:running-maximum-starts-below-every-weight"
+			if maxVar == nil {
+				s.Undecided(nil, key1, fd.Pos(), "no running maximum found")
+			} else {
+				init := int64(0)
+				found := false
+				ast.Inspect(fd.Body, func(n ast.Node) bool {
+					if as, ok := n.(*ast.AssignStmt); ok && as.Tok == token.DEFINE && len(as.Lhs) == 1 && info.ObjectOf(as.Lhs[0].(*ast.Ident)) == maxVar {
+						if v, isC := constInt(info, as.Rhs[0]); isC {
+							init, found = v, true
+						}
+					}
+					return true
+				})
+				switch {
+				case !found:
+					s.Undecided(nil, key1, fd.Pos(), "the initial value of the running maximum is not a constant")
+				case init < 0:
+					s.Pass(nil, key1, fd.Pos(), "the running maximum starts at a negative value")
+				default:
+					s.Fail(nil, key1, fd.Pos(), "the running maximum starts at 0 and is only replaced by a strictly larger weight: for a graph whose k-mers all weigh 0 (records carrying count:0) the placeholder node 0 stays the heaviest, the path is rebuilt from it and HaviestPath panics \"Cycle detected\" although HasCycle() is false — obiconsensus dies on such records")
+				}
+			}
+			key2 := "pkg/obikmer.(*DeBruijnGraph).HaviestPath:unreached-is-not-distance-0"
+			commaOK := false
+			ast.Inspect(fd.Body, func(n ast.Node) bool {
+				if as, ok := n.(*ast.AssignStmt); ok && len(as.Lhs) == 2 && len(as.Rhs) == 1 {
+					if ix, ok := ast.Unparen(as.Rhs[0]).(*ast.IndexExpr); ok {
+						if mt, isMap := info.TypeOf(ix.X).Underlying().(*types.Map); isMap {
+							if b, isB := mt.Elem().Underlying().(*types.Basic); isB && b.Info()&types.IsInteger != 0 {
+								commaOK = true
+							}
+						}
+					}
+				}
+				return true
+			})
+			if commaOK {
+				s.Pass(nil, key2, fd.Pos(), "the distances are read with the comma-ok form: a node never reached is not a node reached with weight 0")
+			} else {
+				s.Fail(nil, key2, fd.Pos(), "a missing distance reads as 0: the successor of a node reached with weight 0 is never relaxed when its own weight is 0 — a graph mixing zero and positive counts is searched incompletely")
 			}
 		},
 	})
